@@ -333,7 +333,7 @@ Scalar MASA::fans_sa_transient_free_shear<Scalar>::eval_exact_u(Scalar x,Scalar 
   using std::sin;
 
   Scalar u_an;
-  u_an = u_0 + u_x * sin(a_ux * pi * x / L) + u_y * cos(a_uy * pi * y / L);
+  u_an = u_0 + u_x * sin(a_ux * pi * x / L) + u_y * cos(a_uy * pi * y / L) + u_t; // temporal term u_t*cos(a_ut*pi*t/L) at t = 0
   return u_an; 
 }
 
@@ -355,7 +355,7 @@ Scalar MASA::fans_sa_transient_free_shear<Scalar>::eval_exact_p(Scalar x,Scalar 
   using std::sin;
 
   Scalar p_an;
-  p_an = p_0 + p_x * cos(a_px * pi * x / L) + p_y * sin(a_py * pi * y / L);
+  p_an = p_0 + p_x * cos(a_px * pi * x / L) + p_y * sin(a_py * pi * y / L) + p_t; // temporal term p_t*cos(a_pt*pi*t/L) at t = 0
   return p_an;
 
 }
